@@ -77,6 +77,16 @@ class GSer(Generic[_GST], GenericSerializableType):
     def _deserialize(cls, value, types):
         return cls(value)
 ''', ["DefaultDict[str, LocV]", "collections.defaultdict[str, List[LocV]]", "GSer[LocV]", "GSer[List[LocV]]"], None),
+    "same_name_other_modules": ('''
+import sys as _sys
+def _mkmod(tag, ptype):
+    m = types.ModuleType(f"mvc_c17_items_{tag}_" + __name__.replace(".", "_"))
+    _sys.modules[m.__name__] = m
+    exec(f"from dataclasses import dataclass\\nfrom decimal import Decimal\\nfrom mashumaro import DataClassDictMixin\\n@dataclass\\nclass Item(DataClassDictMixin):\\n    qty: {ptype} = 0\\n", m.__dict__)
+    return m.Item
+OA = _mkmod("a", "int")
+OB = _mkmod("b", "Decimal")
+''', ["OA", "OB", "List[OB]"], ("OA", "OB")),
     "str_subclass": ('''
 class MyStr(str):
     pass
@@ -132,7 +142,9 @@ def awkward_task(payload):
     src = g4.PRELUDE + extra
     if mode == "two":
         # two same-named classes in ONE schema
-        src += "\n@dataclass\nclass C(DataClassDictMixin):\n    x: L1\n    w: L2\n    y: Optional[L1] = None\n"
+        _two = AWKWARD[fam][2]
+        n1, n2 = _two if isinstance(_two, tuple) else ("L1", "L2")
+        src += f"\n@dataclass\nclass C(DataClassDictMixin):\n    x: {n1}\n    w: {n2}\n    v: List[{n2}]\n    y: Optional[{n1}] = None\n"
     else:
         src += f"\n@dataclass\nclass C(DataClassDictMixin):\n    x: {texpr}\n    y: Optional[{texpr}] = None\n"
     if fam in SAMPLES:
@@ -276,7 +288,7 @@ def check(pid, tier):
         for t in types:
             payloads.append((pid, fam, t, "one"))
         if two:
-            payloads.append((pid, fam, "L1+L2", "two"))
+            payloads.append((pid, fam, "+".join(two) if isinstance(two, tuple) else "L1+L2", "two"))
     res1 = runner.run_pool(awkward_task, payloads, chunks=1)
     res1 += runner.run_pool(custom_task, [(pid, n) for n in CUSTOM], chunks=4)
     types = g4.type_lattice(tier)
